@@ -134,7 +134,8 @@ def oracle(case, out, rng):
             fails.append("negative energy for a displacement")
             break
     # the sub-span given in the other order is the same sub-span; asking again gives the same matrix
-    for key, what in (("KRev", "the sub-span given as (t2, t1)"), ("KAgain", "asking for the same sub-span again after other sub-spans")):
+    for key, what in (("KRev", "the sub-span given as (t2, t1)"), ("KAgain", "asking for the same sub-span again after other sub-spans"),
+                      ("KLater", "asking an equal bar for the same sub-span after every other bar of the run was served")):
         other = out.get(key)
         if other:
             M2 = [[C.ffloat(v) if C.isfinite_s(v) else None for v in row] for row in other]
